@@ -272,9 +272,9 @@ end ring
 def imfaH1 (e1 e2 w : Nat) (i : Nat) (col : List Int) : List Int :=
   ifft_radix2_twiddle e2 (w * 2 ^ (e1 + 1)) w 0 i 1 (revPerm (e2 + 1) col)
 
-/-- the column update of the second loop (:302-365) -/
-def imfaG2 (e1 e2 w trunc : Nat) (i : Nat) (ca cb0 : List Int) : List Int × List Int :=
-  let sc := fun (v : Int) => v * 2 ^ (2 * wnOf (2 ^ (e1 + e2 + 1)) w - (e2 + 1 + (e1 + 1) + 1))
+/-- the column update of the last loop of mpir_ifft_mfa_trunc_sqrt2 (ifft_mfa_trunc_sqrt2.c:207-260; the same
+    statements as :302-354 of the outer variant): swaps, recomputed entries, truncated inverse transform, √2 layer -/
+def imfaG2u (e1 e2 w trunc : Nat) (i : Nat) (ca cb0 : List Int) : List Int × List Int :=
   let cb := revSwaps (e2 + 1) ((trunc - 2 * 2 ^ (e1 + e2 + 1)) / 2 ^ (e1 + 1)) cb0
   let cb := (List.range (2 ^ (e2 + 1))).map fun j =>
     if (trunc - 2 * 2 ^ (e1 + e2 + 1)) / 2 ^ (e1 + 1) ≤ j then
@@ -293,10 +293,15 @@ def imfaG2 (e1 e2 w trunc : Nat) (i : Nat) (ca cb0 : List Int) : List Int × Lis
         else ibfly (wnOf (2 ^ (e1 + e2 + 1)) w) (el ca m) (el cb m) (j / 2) w
       else ibfly (wnOf (2 ^ (e1 + e2 + 1)) w) (el ca m) (el cb m) j (w / 2)
     else (2 * el ca m, el cb m)
-  ((fsts (2 ^ (e2 + 1)) h).map sc,
+  (fsts (2 ^ (e2 + 1)) h, snds (2 ^ (e2 + 1)) h)
+
+/-- the column update of the second loop of the outer variant (:302-365): the same, then the division by 4n -/
+def imfaG2 (e1 e2 w trunc : Nat) (i : Nat) (ca cb0 : List Int) : List Int × List Int :=
+  let sc := fun (v : Int) => v * 2 ^ (2 * wnOf (2 ^ (e1 + e2 + 1)) w - (e2 + 1 + (e1 + 1) + 1))
+  ((imfaG2u e1 e2 w trunc i ca cb0).1.map sc,
    (List.range (2 ^ (e2 + 1))).map fun j =>
-     if j < (trunc - 2 * 2 ^ (e1 + e2 + 1)) / 2 ^ (e1 + 1) then sc (el (snds (2 ^ (e2 + 1)) h) j)
-     else el (snds (2 ^ (e2 + 1)) h) j)
+     if j < (trunc - 2 * 2 ^ (e1 + e2 + 1)) / 2 ^ (e1 + 1) then sc (el (imfaG2u e1 e2 w trunc i ca cb0).2 j)
+     else el (imfaG2u e1 e2 w trunc i ca cb0).2 j)
 
 theorem ifft_mfa_outer_unfold (e1 e2 w trunc : Nat) (xs : List Int) :
     ifft_mfa_trunc_sqrt2_outer (e1 + e2 + 1) w (2 ^ (e1 + 1)) trunc xs =
@@ -309,6 +314,30 @@ theorem ifft_mfa_outer_unfold (e1 e2 w trunc : Nat) (xs : List Int) :
   have hn2 : 2 * 2 ^ (e1 + e2 + 1) / 2 ^ (e1 + 1) = 2 ^ (e2 + 1) := by
     rw [← hN]; exact Nat.mul_div_cancel_left _ (two_pow_pos' _)
   unfold ifft_mfa_trunc_sqrt2_outer
+  simp only [hn2, clog2_pow, Nat.add_sub_cancel]
+  rw [hN]
+  rfl
+
+/-- the row update of mpir_ifft_mfa_trunc_sqrt2 (ifft_mfa_trunc_sqrt2.c:163-172, :194-204): revbin swaps, mpir_ifft_radix2 -/
+def imfaRowF (e1 e2 w : Nat) (row : List Int) : List Int :=
+  ifft_radix2 e1 (w * 2 ^ (e2 + 1)) (revPerm (e1 + 1) row)
+
+theorem ifft_mfa_unfold (e1 e2 w trunc : Nat) (xs : List Int) :
+    ifft_mfa_trunc_sqrt2 (e1 + e2 + 1) w (2 ^ (e1 + 1)) trunc xs =
+      (List.range (2 ^ (e1 + 1))).foldl
+        (colStep (2 ^ (e1 + 1)) (2 ^ (e2 + 1)) (2 ^ (e1 + 1) * 2 ^ (e2 + 1)) (imfaG2u e1 e2 w trunc))
+        (onRows
+          ((List.range (2 ^ (e1 + 1))).foldl
+            (fun xs i => setCol xs i (2 ^ (e1 + 1)) (imfaH1 e1 e2 w i (getCol xs i (2 ^ (e1 + 1)) (2 ^ (e2 + 1)))))
+            (onRows xs 0 (2 ^ (e1 + 1)) (List.range (2 ^ (e2 + 1))) (imfaRowF e1 e2 w)))
+          (2 ^ (e1 + 1) * 2 ^ (e2 + 1)) (2 ^ (e1 + 1))
+          ((List.range ((trunc - 2 * 2 ^ (e1 + e2 + 1)) / 2 ^ (e1 + 1))).map fun s => revbin s (e2 + 1))
+          (imfaRowF e1 e2 w)) := by
+  have hN : 2 ^ (e1 + 1) * 2 ^ (e2 + 1) = 2 * 2 ^ (e1 + e2 + 1) := by
+    rw [← pow_add, ← pow_succ']; congr 1; ring
+  have hn2 : 2 * 2 ^ (e1 + e2 + 1) / 2 ^ (e1 + 1) = 2 ^ (e2 + 1) := by
+    rw [← hN]; exact Nat.mul_div_cancel_left _ (two_pow_pos' _)
+  unfold ifft_mfa_trunc_sqrt2
   simp only [hn2, clog2_pow, Nat.add_sub_cancel]
   rw [hN]
   rfl
